@@ -26,15 +26,32 @@ type host struct {
 	blk2  *types.Block // carrier with two v1 transactions (placement probes)
 	tr    *truth       // what the history really holds: the source of the genuine copy in placement probes
 	// a genuine live v2 contract per proof height (parents for storage proofs that carry a probed chain index)
-	proofParents map[uint64]*types.V2FileContractElement
+	proofParents map[uint64]*[2]*types.V2FileContractElement // [0]: contract with a non-empty file, [1]: with an empty file
 	alt          altValues
 	salt         uint64
+}
+
+// addProofParent registers a genuine live v2 contract as a possible parent of storage proofs.
+func (h *host) addProofParent(x *types.V2FileContractElement) {
+	pp := h.proofParents[x.V2FileContract.ProofHeight]
+	if pp == nil {
+		pp = &[2]*types.V2FileContractElement{}
+		h.proofParents[x.V2FileContract.ProofHeight] = pp
+	}
+	i := 0
+	if x.V2FileContract.Filesize == 0 {
+		i = 1
+	}
+	if pp[i] == nil {
+		c := x.Copy()
+		pp[i] = &c
+	}
 }
 
 var junkHash = types.HashBytes([]byte("verif/C04/junk hash: no node and no leaf of any forest"))
 
 func newHost(cs consensus.State, K *chain.Keyring, salt uint64) *host {
-	h := &host{cs: cs, K: K, child: cs.Index.Height + 1, salt: salt, proofParents: map[uint64]*types.V2FileContractElement{}}
+	h := &host{cs: cs, K: K, child: cs.Index.Height + 1, salt: salt, proofParents: map[uint64]*[2]*types.V2FileContractElement{}}
 	h.v1ok = h.child < cs.Network.HardforkV2.RequireHeight
 	h.v2ok = h.child >= cs.Network.HardforkV2.AllowHeight
 	for _, n := range []string{"X", "Y", "A", "B"} {
@@ -114,7 +131,7 @@ func txRoles(k kind) []string {
 	case kV2FC:
 		return []string{"revision-parent", "resolution-parent"}
 	case kCIE:
-		return []string{"storage-proof-index"}
+		return []string{"storage-proof-index", "storage-proof-index-empty-file"}
 	}
 	return nil
 }
@@ -362,7 +379,14 @@ func (h *host) attack(cs consensus.State, e elem, role string) (txn types.V2Tran
 		txn.FileContractResolutions = []types.V2FileContractResolution{{Parent: x.Copy(), Resolution: ren}}
 		return txn, true
 	case *types.ChainIndexElement:
-		p := h.proofParents[x.ChainIndex.Height]
+		pp := h.proofParents[x.ChainIndex.Height]
+		if pp == nil {
+			return txn, false
+		}
+		p := pp[0]
+		if role == "storage-proof-index-empty-file" {
+			p = pp[1]
+		}
 		if p == nil {
 			return txn, false
 		}
@@ -553,6 +577,9 @@ type stats struct {
 	maxN     uint64
 	probes   int64
 	bySrc    map[string]int64
+	ibSkipped  map[string]int64 // in-block family: states without a usable block prefix, by reason
+	ibPrefixes int64            // block prefixes built, validated and applied
+	ibClasses  map[string]int64 // door/id source/contents class -> probes
 	distinct []uint64         // fingerprints of (accumulator, presented leaf, index, proof, flag) tuples over non-empty accumulators (deduplicated at the end)
 	nondec   map[string]int64 // v2txn role -> probes whose control did not pass
 	suppErr  map[string]int64
@@ -562,7 +589,7 @@ type stats struct {
 func newStats() *stats {
 	return &stats{asks: map[string]int64{}, verdicts: map[string]*[2]int64{}, kinds: map[string]map[string]int64{}, muts: map[string]int64{},
 		bases: map[string]int64{}, fields: map[string]map[string]int64{}, heights: map[int]int64{},
-		nondec: map[string]int64{}, suppErr: map[string]int64{}, bySrc: map[string]int64{}}
+		nondec: map[string]int64{}, suppErr: map[string]int64{}, bySrc: map[string]int64{}, ibSkipped: map[string]int64{}, ibClasses: map[string]int64{}}
 }
 
 func (s *stats) note(door, role string, k kind, accepted bool) {
@@ -598,6 +625,34 @@ type judgeOpts struct {
 	v2txn bool // also ask the doors that need signed transactions: ValidateV2Transaction, and ValidateBlock with the element as the parent of a signed v1 transaction
 	supp  bool // also ask ValidateBlock through the supplement
 	lean  bool // placement probes: only the genuine-copy-first-then-later-transaction placement (big thorough slices)
+}
+
+// judgeV2Txn asks ValidateV2Transaction (attacker's transaction, with control) and compares.
+func (h *host) judgeV2Txn(c *vlib.Ctx, st *stats, p probe, role string, report func(door, role string, accepted bool, pan any, extra string)) {
+	k := p.e.k
+	acc, built, dec, err, pan := h.askV2Txn(p.e, role)
+	if !built {
+		return
+	}
+	st.mu.Lock()
+	if !dec && !acc && pan == nil {
+		// the transaction would be invalid even if the element were a member: no verdict on membership
+		st.nondec[role]++
+		st.mu.Unlock()
+		return
+	}
+	st.note("v2txn", role, k, acc)
+	if acc == p.exp && !acc && p.tpath != "" {
+		st.field("v2txn", k, p.tpath)
+	}
+	st.mu.Unlock()
+	if acc != p.exp || pan != nil {
+		extra := ""
+		if err != nil {
+			extra = " (" + err.Error() + ")"
+		}
+		report("v2txn", role, acc, pan, extra)
+	}
 }
 
 func fingerprint(h *host, p probe) uint64 {
@@ -679,6 +734,13 @@ func judge(c *vlib.Ctx, st *stats, h *host, p probe, o judgeOpts) {
 		return // the public doors ask "is it unspent / unresolved"
 	}
 	for _, role := range txRoles(k) {
+		if role == "storage-proof-index-empty-file" {
+			// same question to ValidateTransactionElements as the previous role; only the transaction door differs
+			if o.v2txn && h.v2ok {
+				h.judgeV2Txn(c, st, p, role, report)
+			}
+			continue
+		}
 		got, pan := h.askVTE(p.e, role)
 		st.mu.Lock()
 		st.note("vte", role, k, got)
@@ -690,29 +752,7 @@ func judge(c *vlib.Ctx, st *stats, h *host, p probe, o judgeOpts) {
 			report("vte", role, got, pan, "")
 		}
 		if o.v2txn && h.v2ok {
-			acc, built, dec, err, pan := h.askV2Txn(p.e, role)
-			if !built {
-				continue
-			}
-			st.mu.Lock()
-			if !dec && !acc && pan == nil {
-				// the transaction would be invalid even if the element were a member: no verdict on membership
-				st.nondec[role]++
-				st.mu.Unlock()
-				continue
-			}
-			st.note("v2txn", role, k, acc)
-			if acc == p.exp && !acc && p.tpath != "" {
-				st.field("v2txn", k, p.tpath)
-			}
-			st.mu.Unlock()
-			if acc != p.exp || pan != nil {
-				extra := ""
-				if err != nil {
-					extra = " (" + err.Error() + ")"
-				}
-				report("v2txn", role, acc, pan, extra)
-			}
+			h.judgeV2Txn(c, st, p, role, report)
 		}
 	}
 	// the genuine element with the same ID, if the history holds one (placement probes)
